@@ -223,7 +223,8 @@ def _run_one(prog: Program, report: Report, g) -> int:
                 if want in gots:
                     report.ob(g.rule, g.fn, f"{g.why.split(';')[0]}: `{one_line(e)[:70]}` = {want}")
                 elif not any(kind_of(c) == kind_of(want_ast) for c in cands):
-                    raise AnalysisError(f"{g.rule}: {g.fn}: `{one_line(e)[:60]}` is a different construct than the documented formula `{want[:60]}` (unrecognised idiom)")
+                    # a different construct: unrecognised idiom for this target only (other targets are still judged)
+                    report.errors.append(f"{g.rule}: {g.fn}: `{one_line(e)[:60]}` is a different construct than the documented formula `{want[:60]}` (unrecognised idiom)")
                 else:
                     report.violate(g.rule, v.fn, t, f"{g.why.split(';')[0]}: {one_line(t)[:100]}", f"{g.why}; the expression normalises to `{gots[0]}` but the documented formula is `{want}`", what=f"/{g.target}/ = {want}")
         elif isinstance(g, Form):
